@@ -10,6 +10,7 @@ import glob
 import hashlib
 import json
 import os
+import re
 import struct
 
 from vlib import common as C
@@ -111,6 +112,11 @@ class Gen:
                 lines.append("clrk %d" % i)
             elif c < 94 and with_reload:
                 lines.append("reload")
+                if r.chance(0.4):
+                    # a table that got its content through load(), cleared right away, then looked up
+                    lines.append("clr" if r.chance(0.7) else "clrk %d" % i)
+                    for _ in range(r.between(1, 5)):
+                        lines.append("find %d" % (hot if r.chance(0.4) else r.below(len(keys))))
             elif wrap and not jumped and c >= 86:
                 # the state reached by 2^32 - 1 - d clear() calls from here (the seal is still small)
                 lines.append("jump %d" % (WRAP - 1 - r.below(3)))
@@ -147,6 +153,12 @@ class Gen:
                 lines.append("pclr")
             elif c < 94:
                 lines.append("preload")
+                if r.chance(0.5):
+                    # new session: cache loaded, the data change, clear(), evaluations
+                    lines.append("pdata %d" % r.below(6))
+                    lines.append("pclr")
+                    for _ in range(r.between(1, 5)):
+                        lines.append("peval %d" % r.below(m))
             else:
                 lines.append("peval %d" % r.below(m))
                 lines.append("peval %d" % r.below(m))
@@ -194,7 +206,8 @@ def run(chk, replay=None):
     seqs = []   # (name, lines, meta)
     if replay:
         r = json.load(open(replay))
-        seqs.append(("replay", r["replay"]["lines"], {}))
+        if r["replay"].get("lines"):
+            seqs.append(("replay", r["replay"]["lines"], {}))
     else:
         for f in sorted(glob.glob(os.path.join(C.ROOT, "corpus", "C04", "*.ops"))):
             ls = [l.rstrip("\n") for l in open(f) if not l.startswith("#")]
@@ -324,6 +337,93 @@ def run(chk, replay=None):
         broken_replay = {"lines": ls[:i - start + 1]}
     else:
         broken_replay = {}
+
+    # ---- call sites: real src_problem + error evaluator + evaluator_proxy + dss / holdout ----------
+    SITES = ["dss::init", "dss::shake", "dss::close", "holdout_validation::init", "holdout_validation::shake",
+             "holdout_validation::close"]
+    cs_args = [chk.seed, 40 if chk.tier == "quick" else 500, 3 if chk.tier == "quick" else 25]
+    if replay and "callsite_args" in json.load(open(replay))["replay"]:
+        cs_args = json.load(open(replay))["replay"]["callsite_args"]
+    if not replay or "callsite_args" in json.load(open(replay))["replay"]:
+        cexe = C.build_harness("c04_callsite", "asan")
+        rc, so, se = C.run_harness(cexe, cs_args, timeout=3000)
+        tr = so.splitlines()
+        if rc != 0:
+            chk.violation("call-site harness died (rc=%d)\n%s" % (rc, se[-2000:]),
+                          {"callsite_args": cs_args, "trace_tail": tr[-20:], "stderr": se[-3000:]},
+                          tags={"kind": "crash", "site": "callsite"})
+        ml, where = [], []
+        for i, l in enumerate(tr):
+            if l.startswith(("scenario", "evo")) or " = " not in l:
+                continue
+            lhs, rhs = l.split(" = ", 1)
+            x = to_lean(lhs, rhs) if lhs.startswith("pnew") else lhs
+            if x is None:
+                broken.append("call-site scenario: slot classes are not an equivalence relation: " + rhs[:100])
+                x = "skip"
+            ml.append(x)
+            where.append(i)
+        cl = C.run_driver("c04_driver", ml) if (drv_ok and ml) else None
+        model_at = dict(zip(where, cl)) if cl is not None else {}
+        scen, meta, reported = -1, {}, set()
+        csdis = 0
+        last_site = None
+        for i, l in enumerate(tr):
+            if l.startswith("scenario"):
+                scen += 1
+                meta = dict(kv.split("=") for kv in l.split()[2:])
+                chk.count("callsite:scenario:" + meta["strategy"])
+                chk.count("callsite:prefill:" + meta["prefill"])
+                chk.count("callsite:evaluator:" + meta.get("evaluator", "?"))
+                last_site = None
+                continue
+            if l.startswith("evo"):
+                chk.count("callsite:evolutions")
+                m = re.search(r"checked=(\d+) wrong=(\d+)", l)
+                if m:
+                    chk.count("callsite:evolution-comparisons", int(m.group(1)))
+                if " | BAD " in l:
+                    chk.violation("real evolution with dss (search::run's loop: init, evolution.run(r, shake), close), "
+                                  "non-empty cache before run 0: " + l,
+                                  {"callsite_args": cs_args, "line": l},
+                                  tags={"kind": "proxy-differs-from-direct-evaluation", "site": "evolution", "prefilled": "yes"})
+                continue
+            if " = " not in l:
+                continue
+            lhs, rhs = l.split(" = ", 1)
+            t = lhs.split()
+            if t[0] == "cs":
+                last_site = (SITES[int(t[1])], int(t[2]))
+                chk.count("callsite:step:" + SITES[int(t[1])])
+            mod = model_at.get(i)
+            if t[0] == "pevalv":
+                chk.seen(("cs", cs_args[0], scen, i))
+                vs = rhs.split(" | ")[0].split(",")
+                stale = " | BAD " in rhs
+                chk.count("callsite:eval:" + ("stale" if stale else "current"))
+                if mod is not None and (mod.split()[1:2] or ["?"])[0] not in vs:
+                    csdis += 1
+                    if csdis == 1:
+                        broken.append("call-site scenario %d: model and real proxy disagree at `%s` after %s: code answers "
+                                      "as on data version(s) %s, model %s" % (scen, lhs, last_site, vs, mod))
+                if stale and scen not in reported:
+                    reported.add(scen)
+                    site, arg = last_site if last_site else ("prefill", 0)
+                    start = max(j for j in range(i + 1) if tr[j].startswith("scenario"))
+                    steps = [x for x in tr[start:i + 1] if not x.startswith("pevalv")]
+                    chk.violation("after %s(%d) the proxy answers with the fitness on an OLD training set (scenario %d: %s; "
+                                  "real %s_evaluator in evaluator_proxy; cache %s before run 0): `%s`"
+                                  % (site, arg, scen, tr[start], meta.get("evaluator"),
+                                     "non-empty" if meta.get("prefill") != "0" else "empty", l),
+                                  {"callsite_args": cs_args, "scenario": scen, "steps": steps[-30:], "line": l},
+                                  tags={"kind": "proxy-differs-from-direct-evaluation", "site": site, "arg": arg,
+                                        "prefilled": "yes" if meta.get("prefill") != "0" else "no"})
+            elif mod is not None and t[0] != "pnew" and rhs.split(" | ")[0] != mod:
+                csdis += 1
+                if csdis == 1:
+                    broken.append("call-site scenario %d: `%s`: code `%s`, model `%s`" % (scen, lhs, rhs, mod))
+        chk.cov["callsite_model_vs_code_disagreements"] = csdis
+        chk.cov["callsite_args"] = cs_args
 
     # ---- thorough: 2^32 real clear() calls --------------------------------
     if chk.tier == "thorough" and not replay:
